@@ -541,6 +541,11 @@ class StmtMixin(BuiltinMixin):
 
     def exec_for(self, s, st, ctx, it):
         it = self.need(st, ctx, it, s.lineno, "for-iter")
+        if isinstance(it, Ref) and META[it.oid].kind == "generator":
+            out = []
+            for s2, seq in self.drain_producer(st, ctx, it, s.lineno):
+                out.extend([(s2, seq)] if isinstance(seq, Raise) else self.exec_for(s, s2, ctx, seq))
+            return out
         if isinstance(it, Ref) and META[it.oid].kind == "list":
             it = st.get(it, "items")
         if isinstance(it, tuple) and not (it and isinstance(it[0], str) and it[0].startswith("$")):
